@@ -5,6 +5,18 @@ import json, os, subprocess
 VERIF = os.path.dirname(os.path.dirname(os.path.abspath(__file__)))
 
 CLAIMED = {
+    "C17": dict(
+        category="proof",
+        text="Coq theorems T_C17_* (coq/Properties_C17.v, closed under the global context) over a model of KeyValueProxy::VisitArgs / SerializationContext::AddValidationError / the built-in validators for arbitrary classes (any fields, any validator lists, any documents): a load throws ValidationException iff some validator fails; with maxValidationErrors = 0 the exception carries exactly the failing paths with exactly their failing messages in declaration order (repeated keys accumulate); Required/Range/MinSize/MaxSize follow the documented semantics with inclusive bounds; validation never changes loaded values. The capped statement is refuted with its exact class (F32, known finding) and proved outside it. Tied to /repo by correspondence through the real JSON, MsgPack and CSV archives on a catalogue of validated classes (flat, nested, in arrays/maps) with every field state (valid, at/inside/outside each bound, absent, null, mismatched-and-skipped) and max in {0,1,2,3,100}.",
+        design_ref="DESIGN.md 4 (C17)",
+        note="Email/PhoneNumber validators are mirrored for the correspondence only and opaque in the theorems; XML paths not covered; the object state after an early (capped) throw is not modelled (T_C17_passing_fields_loaded_partial).",
+        technique="Coq proof (invariant over load steps of the validation bookkeeping) with extracted-model vs implementation correspondence"),
+    "C18": dict(
+        category="proof",
+        text="Coq theorems T_C18_* (coq/Properties_C18.v): SerializeContainer and its relatives (forward_list, fixed-size arrays, vector<bool>, valarray, sets, multimaps, the three MapLoadModes, optional/unique_ptr/shared_ptr) modelled for ANY element type, loader, prior content and estimated size: the result equals loading into a fresh target whenever the element loader is prior-independent, the hypothesis is re-established one level up (nesting), OnlyExistKeys never adds a key, UpdateKeys never removes one. Over the type universe the full statement is refuted with the exact residual class (elements of fixed arrays / pair members / class fields / root that are not loaded: F36 remainder, F29 for XML — known findings) and proved outside it. Tied to /repo by correspondence through JSON, MsgPack and CSV for 44 container types with all (prior size, data size) in {0..5}^2. Two defects found here were repaired (772314c stale items, cf5d8dc uninitialised set element).",
+        design_ref="DESIGN.md 4 (C18)",
+        note="std::tuple, map keys other than int/string, duplicate document keys and XML correspondence are not covered; the tightness converse of the _outside classes is not proved.",
+        technique="Coq proof (induction over data and type descriptors of the container loading algorithms) with extracted-model vs implementation correspondence"),
     "C02": dict(
         category="proof",
         text="PARTIAL. Proved (coq/Properties_C02.v, closed under the global context): on the executable models every UTF transcoding and every MsgPack read/skip terminates within a fuel linear in the input, never leaves its input buffer and ends in an ordinary outcome, for every byte string. Observed on every run (not proved): the real C++ under ASan+UBSan with watchdog and allocation cap, fed structure-aware mutations / all truncations / arbitrary bytes / boundary families through LoadObject<MsgPack|CSV|JSON|XML> (memory and stream, 10 target shapes, 4 policy settings) and Convert::To (20 target kinds); the property itself is the oracle (anything but OK or an exception derived from std::exception is a violation). Three genuine defect classes of the unchanged tree are KNOWN FINDINGS (F17 terminate, F19 stack overflow by nesting, F20 allocation from declared count); eight others found on the way were repaired by fix: commits.",
